@@ -34,6 +34,7 @@ def describe(ck):
     ck.rule("R05p", "an array that replaces msa->sequences receives no NULL slot: every record of the old array is carried over")
     ck.rule("R05r", "loops bounded by the length of an input line index that line, or a pointer at a known offset with the bound reduced by it, or test for the terminating NUL")
     ck.rule("R05s", "every function that (re)allocates msa_seq.gaps zeroes the counters up to exactly the allocated count")
+    ck.rule("R05w", "a local buffer filled through a counter that one loop increments has room for the trip count (plus one for a terminator stored after the loop)")
     ck.rule("R05u", "fclose(f) without a test of f is reachable neither from the failure branch of the fopen test nor from the entry without an assignment to f")
     ck.rule("R05t", "a va_list is consumed by at most one callee between va_start/va_copy and va_end on every path")
     ck.rule("R05j", "loop-carried appends X->buf[X->count]; X->count++ test count against capacity before the next element access")
@@ -434,6 +435,7 @@ def run(ck, progs):
         ck.attempt(r05s, ck, prog)
         ck.attempt(r05t, ck, prog)
         ck.attempt(r05u, ck, prog)
+        ck.attempt(r05w, ck, prog)
         n = ck.attempt(r05r, ck, prog)
         ck.floor("R05r", n, 3, "line-length bounded accesses")
         ck.attempt(r05p, ck, prog)
@@ -2173,3 +2175,66 @@ def r05u(ck, prog):
                              "%s calls fclose(%s) on a path that comes from %s: %s is NULL there, fclose(NULL) crashes instead of the "
                              "failure being reported" % (F.name, name, bad, name), prog.config)
     ck.floor("R05u", n, 4, "fclose calls on local streams")
+
+
+# --------------------------------------------------------------------------- R05w
+def r05w(ck, prog):
+    """a buffer filled through a local counter: buf is allocated in the function with S elements, the counter c starts at a
+    constant and is incremented by one statement of one counting loop with trip count T (resets to a constant allowed); then
+    c <= T, so a store buf[c] inside the loop before the increment needs S - T >= 0 and a store after the loop (the
+    terminator) needs S - T >= 1.  Decided when S - T is a constant; otherwise not decided (note)"""
+    from ..affine import lin, Lin, single_defs, loop_range, alloc_sites
+    n = 0
+    for F in prog.all_functions:
+        if F.body is None or F.cfg is None or "/tests/" in F.file:
+            continue
+        allocs = {}
+        for t, sz, c in alloc_sites(F):
+            if t.k == "DeclRefExpr" and c.callee in ("malloc", "calloc"):
+                allocs.setdefault(t.d["did"], []).append((t, sz, c))
+        if not allocs:
+            continue
+        subst = None
+        for st in F.body.find("BinaryOperator"):
+            if st.d["op"] != "=" or st.kids[0].strip().k != "ArraySubscriptExpr":
+                continue
+            sub = st.kids[0].strip()
+            b, i = sub.kids[0].strip(casts=True), sub.kids[1].strip(casts=True)
+            if not (b.k == "DeclRefExpr" and b.d["did"] in allocs and len(allocs[b.d["did"]]) == 1 and i.k == "DeclRefExpr" and i.d.get("dk") == "Var"):
+                continue
+            defs = local_defs(F, i.d["did"])
+            consts = [d for d, nd in defs if d is not None]
+            incs = [nd for d, nd in defs if d is None]
+            if not incs or any(const_value(d) is None for d in consts) or not all(nd.k == "UnaryOperator" and nd.d["op"] == "++" for nd in incs):
+                continue
+            loops = {id(next((x for x in nd.ancestors() if x.k in ("ForStmt", "WhileStmt")), None)): next((x for x in nd.ancestors() if x.k in ("ForStmt", "WhileStmt")), None) for nd in incs}
+            if len(loops) != 1 or None in loops.values() or len(incs) != 1:
+                continue
+            L = list(loops.values())[0]
+            if any(x.k in ("ForStmt", "WhileStmt") and incs[0].within(x) for x in L.child("body").walk() if x is not L):
+                continue                # the increment sits in a nested loop: more than one per iteration
+            if subst is None:
+                subst = single_defs(F)
+            rng = loop_range(L, subst)
+            t, sz, call = allocs[b.d["did"]][0]
+            S = lin(sz, subst)
+            szs = [x.cv for x in sz.walk() if x.k == "UnaryExprOrTypeTraitExpr" and x.cv]
+            if rng is None or S is None or len(set(szs)) > 1 or rng[0] == i.d["name"]:
+                continue
+            if szs and S.div(szs[0]) is not None:
+                S = S.div(szs[0])
+            T = rng[2].add(rng[1], -1)
+            base = max(const_value(d) for d in consts) if consts else 0
+            slack = S.add(T, -1).add(Lin(base), -1)
+            inside = st.within(L)
+            need = 0 if inside else 1
+            n += 1
+            where = site(prog, st, "%s[%s]" % (b.d["name"], i.d["name"]))
+            ck.inst("R05w", where, "%s: %s holds %s elements, %s is incremented at most %s times; store %s the loop: slack %s (needs >= %d)" % (
+                F.name, b.d["name"], S, i.d["name"], T, "inside" if inside else "after", slack, need), prog.config)
+            if slack.is_const() and slack.c < need:
+                ck.violation("R05w", "R05w/%s/%s" % (F.name, b.d["name"]), where,
+                             "%s allocates %s elements for %s but %s can reach %s when every iteration of the loop at line %d increments it: the "
+                             "store %s writes one element past the allocation" % (
+                                 F.name, S, b.d["name"], i.d["name"], T.add(Lin(base)), L.line, st.text()[:30]), prog.config)
+    ck.floor("R05w", n, 2, "counter-indexed stores into local allocations")
